@@ -1,4 +1,5 @@
 import TlsProofs.RsaDecrypt
+import TlsProofs.RsaServer
 /-
   C11 — RSA key transport gives an attacker no padding oracle.
 
@@ -252,3 +253,141 @@ example : processClientKeyExchange exKey (exPrims exBadEM) exRand (3, 3) (3, 3) 
   constructor <;> decide +kernel
 
 end Tls.RsaDec
+
+/-! ## The server's wire behaviour after ClientKeyExchange (model: TlsModel/RsaServer.lean) -/
+namespace Tls.RsaServer
+open Tls.RsaDec
+
+/-- **Server wire behaviour is independent of the defect.** For any two ClientKeyExchange
+    payloads that are both not accepted (whatever the reasons: padding, length, version bytes,
+    `c ≥ n`, wrong ciphertext length) and any continuation of the client's flight, the server's
+    emitted records and the way its handshake ends are the same value: the one determined by the
+    public inputs and the random substitute alone. -/
+theorem server_wire_independent_of_defect (K : Key) (P : Prims) (S : SrvPrims) (E : SrvEnv)
+    (rand c1 c2 : Bytes) (cv : Nat × Nat) (inc : List WireRec)
+    (h32 : ∀ k m, (P.hmac k m).length = 32) (hk : 11 ≤ K.k) (hk16 : K.k < 65536)
+    (hr : rand.length = 48)
+    (h1 : ∀ dec, decrypt K P c1 = .ok dec → ¬ Accepted dec cv E.version)
+    (h2 : ∀ dec, decrypt K P c2 = .ok dec → ¬ Accepted dec cv E.version) :
+    serverRun K P S E rand cv c1 inc = serverAfterCKE S E rand inc ∧
+    serverRun K P S E rand cv c2 inc = serverAfterCKE S E rand inc := by
+  obtain ⟨e1, e2⟩ := premaster_independent_of_defect K P rand c1 c2 cv E.version h32 hk hk16 hr h1 h2
+  unfold serverRun
+  rw [e1, e2]
+  exact ⟨rfl, rfl⟩
+
+/-- **The rejected and the valid run differ only from the Finished check on.** Outside
+    SSLv3-with-client-certificate, for every continuation of the client's flight: either the run
+    ends before the Finished step with a result that does not depend on the premaster at all
+    (so it is the same for the valid premaster and for the random substitute), or every premaster
+    reaches the Finished step in the same state and everything the server writes is written after
+    the client's Finished record has been consumed. -/
+theorem server_differs_from_valid_only_at_finished (S : SrvPrims) (E : SrvEnv) (inc : List WireRec)
+    (hne : ¬ (E.version = (3, 0) ∧ E.hasClientCert = true)) :
+    (∃ r, ∀ pms, serverAfterCKE S E pms inc = r) ∨
+    (∃ M, M.consumed + 1 = finishedIndex E ∧
+      ∀ pms, serverAfterCKE S E pms inc = finishedStep S E pms M ∧
+        ∀ e ∈ (serverAfterCKE S E pms inc).trace, e.consumed = finishedIndex E) := by
+  have hind : ∀ pms, certVerifyStep S E pms inc = certVerifyStep S E [] inc :=
+    fun pms => certVerifyStep_indep S E pms [] inc hne
+  cases hcv : certVerifyStep S E [] inc with
+  | error r =>
+    left; refine ⟨r, fun pms => ?_⟩
+    unfold serverAfterCKE; rw [hind pms, hcv]
+  | ok M1 =>
+    have hM1 : M1.consumed = E.consumed + (if E.hasClientCert then 1 else 0) := by
+      unfold certVerifyStep at hcv
+      by_cases hc : E.hasClientCert = true
+      · simp only [hc, if_true] at hcv ⊢
+        cases hg : getMsg S none 22 (some 15) inc E.consumed with
+        | error r => simp [hg] at hcv
+        | ok t =>
+          obtain ⟨m, rest, c⟩ := t
+          have hc' := getMsg_ok _ _ _ _ _ _ _ _ _ hg
+          simp only [hg] at hcv
+          split at hcv
+          · simp at hcv
+          · simp at hcv; rw [← hcv]; exact hc'
+      · have hf : E.hasClientCert = false := by cases h : E.hasClientCert <;> simp_all
+        simp [hf] at hcv ⊢
+        rw [← hcv]
+    cases hccs : ccsStep S M1 with
+    | error r =>
+      left; refine ⟨r, fun pms => ?_⟩
+      unfold serverAfterCKE; rw [hind pms, hcv]; simp only [hccs]
+    | ok M2 =>
+      have hM2 : M2.consumed = M1.consumed + 1 := by
+        unfold ccsStep at hccs
+        cases hg : getMsg S none 20 none M1.rest M1.consumed with
+        | error r => simp [hg] at hccs
+        | ok t =>
+          obtain ⟨p, rest, c⟩ := t
+          have hc' := getMsg_ok _ _ _ _ _ _ _ _ _ hg
+          simp only [hg] at hccs
+          cases p with
+          | nil => simp at hccs
+          | cons t tl =>
+            simp only at hccs
+            split at hccs
+            · simp at hccs
+            · simp at hccs; rw [← hccs]; exact hc'
+      right
+      refine ⟨M2, by unfold finishedIndex; omega, fun pms => ?_⟩
+      have hrun : serverAfterCKE S E pms inc = finishedStep S E pms M2 := by
+        unfold serverAfterCKE; rw [hind pms, hcv]; simp only [hccs]
+      refine ⟨hrun, fun e he => ?_⟩
+      rw [hrun] at he
+      have := finishedStep_consumed S E pms M2 e he
+      unfold finishedIndex; omega
+
+/-- **No early alert.** Outside SSLv3-with-client-certificate: if the server writes anything
+    (in particular an alert) before the client's Finished record has been consumed, then the
+    whole run is one that does not depend on the premaster — it would have been the same for a
+    valid ClientKeyExchange.  A rejected premaster therefore never causes an alert before the
+    client's Finished is read. -/
+theorem no_early_alert (S : SrvPrims) (E : SrvEnv) (inc : List WireRec) (pms : Bytes) (e : Emit)
+    (hne : ¬ (E.version = (3, 0) ∧ E.hasClientCert = true))
+    (he : e ∈ (serverAfterCKE S E pms inc).trace) (hearly : e.consumed < finishedIndex E) :
+    ∀ pms', serverAfterCKE S E pms' inc = serverAfterCKE S E pms inc := by
+  rcases server_differs_from_valid_only_at_finished S E inc hne with ⟨r, hr⟩ | ⟨M, _, hM⟩
+  · intro pms'; rw [hr pms', hr pms]
+  · have := (hM pms).2 e he
+    omega
+
+/-- **The alert the code sends.** When the Finished step is reached and the record layer rejects
+    the client's Finished record under the keys the server derived (which is what happens when
+    the premaster was replaced), the server writes exactly one fatal alert — the one the record
+    layer exception maps to (bad_record_mac for a MAC / padding / tag failure) — and stops. -/
+theorem finished_record_failure (S : SrvPrims) (E : SrvEnv) (pms : Bytes) (M : Mid) (r : WireRec)
+    (rest : List WireRec) (x : RecErr) (hM : M.rest = r :: rest)
+    (herr : S.recv (some (keyBlock S E pms)) r = .error x) :
+    finishedStep S E pms M = sendError x.alert (M.consumed + 1) := by
+  unfold finishedStep
+  simp only [getMsg, hM, herr]
+
+/-! non-vacuity on the symbolic instance: TLS 1.2, no client certificate, honest client flight
+    for premaster `exPmsC`; the server holding the same premaster completes, the server holding
+    the substitute writes one bad_record_mac alert after the client's Finished; SSLv3 with a client
+    certificate (excluded above) fails at CertificateVerify with decrypt_error instead. -/
+def exEnv (v : Nat × Nat) (cert : Bool) : SrvEnv :=
+  { version := v, ems := true, hasClientCert := cert, clientRandom := [1, 2], serverRandom := [3, 4],
+    transcript := [[1, 0], [16, 9]], keyLen := 104, consumed := 2 }
+def exPmsC : Bytes := 3 :: 3 :: List.replicate 46 7
+
+example : serverAfterCKE symPrims (exEnv (3, 3) false) exPmsC (symClientFlight (exEnv (3, 3) false) exPmsC 1) =
+    { trace := [{ ctype := 20, encrypted := false, plainLen := 1, alert := none, consumed := 4 },
+                { ctype := 22, encrypted := true, plainLen := 16, alert := none, consumed := 4 }],
+      outcome := .done } := by decide +kernel
+example : serverAfterCKE symPrims (exEnv (3, 3) false) exRand (symClientFlight (exEnv (3, 3) false) exPmsC 1) =
+    sendError 20 4 := by decide +kernel
+example : finishedIndex (exEnv (3, 3) false) = 4 := by decide
+example : serverAfterCKE symPrims (exEnv (3, 3) true) exRand (symClientFlight (exEnv (3, 3) true) exPmsC 1) =
+    sendError 20 5 := by decide +kernel
+example : serverAfterCKE symPrims (exEnv (3, 0) true) exRand (symClientFlight (exEnv (3, 0) true) exPmsC 1) =
+    sendError 51 3 ∧ finishedIndex (exEnv (3, 0) true) = 5 := by decide +kernel
+example : serverAfterCKE symPrims (exEnv (3, 1) false) exPmsC (symClientFlight (exEnv (3, 1) false) exPmsC 2) =
+    sendError 47 3 ∧
+    serverAfterCKE symPrims (exEnv (3, 1) false) exRand (symClientFlight (exEnv (3, 1) false) exPmsC 2) =
+    sendError 47 3 := by decide +kernel
+
+end Tls.RsaServer
